@@ -96,7 +96,12 @@ pub fn output_diff_unified(old: &str, new: &str) -> Result<Option<Vec<u8>>> {
     let text_diff = TextDiff::from_lines(old, new);
 
     // If there are no changes, return nothing
-    if text_diff.ratio() == 1.0 {
+    // (compare the operations themselves: the f32 similarity ratio rounds to 1.0 for a small change in a very large file)
+    if text_diff
+        .ops()
+        .iter()
+        .all(|op| matches!(op, DiffOp::Equal { .. }))
+    {
         return Ok(None);
     }
 
